@@ -63,14 +63,23 @@ def workdir():
 # --------------------------------------------------------------------------
 
 CONTENTS = ["two words", "café", "x-y_z", "semi;colon", "1a"]
+# literal VALUES whose lexical form needs escapes (quote, backslash): the text renderings write backslash-quote and two backslashes (esc_lex),
+# the rdflib terms / JSON-LD carry the value itself
+ESCAPED_CONTENTS = ['say "hi"', '{"a": "b\\\\c"}', '<a href="x">y</a>', "a\\b", '"', "\\", 'x\\"y', "end\\", '""',
+                    'q"@en', 'q"^^<http://ex.org/o>', 'a "b" . c', '"^^', 'x" .', 'a\\"', '# "x"', 'a "#b" c',
+                    '{"k": ["v", "w"]}', '<p class="c">é "q"</p>']
+RDF_NS = "http://www.w3.org/1999/02/22-rdf-syntax-ns#"
+TYPED_DTS = [RDF_NS + "JSON", RDF_NS + "HTML", "http://ex.org/dt", "http://ex.org/types#custom"]
 
 
 def gen_case_graph(r, i):
     """pipe.gen_graph plus richer literal contents; three streams:
-    0 IRI instances only, 1 blank-node instances allowed, 2 IRI instances with a plain literal holding '@'"""
+    0 IRI instances only, 1 blank-node instances allowed, 2 IRI instances with a plain literal holding '@',
+    3 IRI instances, literals (plain, tagged, TYPED: rdf:JSON, rdf:HTML, custom) whose lexical forms hold escaped
+    quotes / backslashes, one of them planted on the instances of a class"""
     ns = ("http://ex.org/", "http://other.org/ns#") if i % 4 == 0 else ("http://ex.org/",)
     ts = pipe.gen_graph(r, general=(i % 3 != 0), namespaces=ns)
-    stream = (i % 7 == 3) and 1 or ((i % 11 == 5) and 2 or 0)
+    stream = (i % 7 == 3) and 1 or ((i % 11 == 5) and 2 or ((i % 5 == 2) and 3 or 0))
     out = []
     for s, p, o in ts:
         if o[0] == "L":
@@ -79,6 +88,10 @@ def gen_case_graph(r, i):
                 o = ("L", str(r.randint(0, 99)), o[2])
             elif o[2] == XSD + "date":
                 o = ("L", "2020-01-%02d" % r.randint(1, 28), o[2])
+            elif stream == 3 and r.random() < 0.6:
+                o = ("L", r.choice(ESCAPED_CONTENTS)) + tuple(o[2:])
+                if o[2] == "http://ex.org/dt":
+                    o = (o[0], o[1], r.choice(TYPED_DTS))
             elif r.random() < 0.3:
                 o = ("L", r.choice(CONTENTS)) + tuple(o[2:])
         out.append((s, p, o))
@@ -91,6 +104,16 @@ def gen_case_graph(r, i):
         subj = [s for s, p, o in ts if p == TAU]
         if subj:
             ts = ts + [(r.choice(subj), "http://ex.org/mail", ("L", "user%d@ex.org" % r.randint(0, 9), XSD + "string"))]
+    if stream == 3:
+        by_class = {}
+        for s, p, o in ts:
+            if p == TAU and o[0] == "I":
+                by_class.setdefault(o[1], []).append(s)
+        if by_class:
+            members = by_class[r.choice(sorted(by_class))]
+            keep = [s for s in members if r.random() < 0.8] or members[:1]
+            dt = r.choice(TYPED_DTS)
+            ts = ts + [(s, "http://ex.org/payload", ("L", r.choice(ESCAPED_CONTENTS), dt)) for s in keep]
     seen, ded = set(), []
     for t in ts:
         if t not in seen:
@@ -122,8 +145,25 @@ def kinded(ts):
 # renderings
 # --------------------------------------------------------------------------
 
+def esc_lex(v):
+    """the lexical form as N-Triples / Turtle write it inside "...": backslash and quote escaped (ECHAR)"""
+    return v.replace("\\", "\\\\").replace('"', '\\"')
+
+
+def esc_ts(ts):
+    """the abstract graph with every literal VALUE replaced by its escaped lexical form (what the text renderings of
+    pipe.nt_term / ttl_term put between the quotes); rdflib terms and JSON-LD are built from the values themselves"""
+    return [(s, p, (("L", esc_lex(o[1])) + tuple(o[2:])) if o[0] == "L" and ('"' in o[1] or "\\" in o[1]) else o)
+            for s, p, o in ts]
+
+
+def nt_doc(ts):
+    """the raw N-Triples document of the graph (the reference channel)"""
+    return pipe.nt_doc(esc_ts(ts))
+
+
 def tsv_doc(ts):
-    return "".join("%s\t<%s>\t%s\n" % (pipe.nt_term(s), p, pipe.nt_term(o)) for s, p, o in ts)
+    return "".join("%s\t<%s>\t%s\n" % (pipe.nt_term(s), p, pipe.nt_term(o)) for s, p, o in esc_ts(ts))
 
 
 TTL_PREFIXES = [("ex", "http://ex.org/"), ("oth", "http://other.org/ns#"), ("xsd", XSD)]
@@ -153,7 +193,8 @@ def ttl_term(x):
 def ttl_doc(ts):
     """the dialect of the streaming reader: prefix header, one triple per line"""
     head = "".join("@prefix %s: <%s> .\n" % (p, ns) for p, ns in TTL_PREFIXES)
-    return head + "".join("%s %s %s .\n" % (ttl_term(s), "a" if p == TAU else _ttl_iri(p), ttl_term(o)) for s, p, o in ts)
+    return head + "".join("%s %s %s .\n" % (ttl_term(s), "a" if p == TAU else _ttl_iri(p), ttl_term(o))
+                          for s, p, o in esc_ts(ts))
 
 
 def rdflib_graph(ts):
@@ -328,7 +369,7 @@ def commented_out(fmt, ts):
     if fmt == "tsv_spo":
         line = "# " + tsv_doc([st])
     elif fmt == "nt":
-        line = "# " + pipe.nt_doc([st])
+        line = "# " + nt_doc([st])
     else:
         line = "# %s <%s> <%s> .\n" % (pipe.nt_term(subj), COMMENTED_P, COMMENTED_O)
     return "# a comment line\n" + line + "\n"
@@ -337,7 +378,7 @@ def commented_out(fmt, ts):
 def doc_for(fmt, ts):
     head = commented_out(fmt, ts) if (_COMMENTS[0] and fmt in ("nt", "tsv_spo", "turtle_iter", "turtle", "n3")) else ""
     if fmt == "nt":
-        return head + pipe.nt_doc(ts)
+        return head + nt_doc(ts)
     if fmt == "tsv_spo":
         return head + tsv_doc(ts)
     if fmt == "turtle_iter":
@@ -853,7 +894,9 @@ TSV_TOKENS = ["<http://e/a>", "<http://e/p>", "_:b1", '"x"', '"a b"@en', '"5"^^<
               '"a@b"', '"x"^^foo',
               # tokens on which the two texts of decide_literal_type differ (C06 repair B)
               '"a"^^<http://e/a@b>', '"^^"', '"xsd:"^^<http://e/dt>', '"xsd:int"^^xsd:string',
-              '"5"^^<http://www.w3.org/2001/XMLSchema#integer>.', '"a"^^ <http://e/dt> ']
+              '"5"^^<http://www.w3.org/2001/XMLSchema#integer>.', '"a"^^ <http://e/dt> ',
+              # escaped quotes / backslashes inside the lexical form of a typed and of a tagged literal
+              '"a\\"b"^^<http://e/dt>', '"x\\\\"@en']
 
 
 def _tsv_real(line):
@@ -1035,7 +1078,7 @@ def run_case(case):
            "monitored": 0, "outcomes": {}, "vm": []}
     _COMMENTS[0] = bool(case.get("comments"))
     try:
-        ref, rec = real_shaper({"raw_graph": pipe.nt_doc(ts)}, cfg)
+        ref, rec = real_shaper({"raw_graph": nt_doc(ts)}, cfg)
         out["runs"] += 1
         e_ref = evidence(ref, cfg)
         rcs = pipespec.tie_root_causes(ts, cfg)
@@ -1146,7 +1189,7 @@ def run_case(case):
                     out["corr_fail"].append({"channel": name, "what": "run_shexc2 over the two recorded streams differs "
                                              "from the Shaper's output", "model": list(m2)[:2], "impl": list(res)[:2]})
         out["nontrivial"] = nontrivial_graph(ts)
-        out["doc"] = pipe.nt_doc(ts)
+        out["doc"] = nt_doc(ts)
     except Exception as e:  # noqa: BLE001
         import traceback
         out["internal"] = "case %d crashed: %s %s" % (case["i"], type(e).__name__, traceback.format_exc()[-800:])
@@ -1155,6 +1198,171 @@ def run_case(case):
         shutil.rmtree(d, ignore_errors=True)
     out["comments"] = 1 if case.get("comments") else 0
     return out
+
+
+
+# --------------------------------------------------------------------------
+# one big non-ASCII document through the file / compressed line channels
+# --------------------------------------------------------------------------
+# The small graphs never leave the first buffer of a reader.  This document is a few hundred KB long, its IRIs and
+# literals are dense in 2-, 3- and 4-byte UTF-8 characters, and -- in the rendering of the channel's own format:
+# one graph per format family, differing in the filler literals only -- a multi-byte character of the subject IRI of a
+# typing statement straddles EVERY multiple of 64 KiB: a reader that decodes its input block by block sees both halves.  Oracle only for the Shaper runs (evidence of every channel == evidence of the raw string; the
+# pipeline model is not run on 2 500 triples, and the extracted line-reader model needs minutes on 300 KB: neither
+# takes part -- this is an implementation-against-implementation comparison, raw string vs file / compressed file).
+
+BLOCK = 1 << 16
+NON_ASCII = "ñéüßçλωЖдשע中文節点あア한€𝄞😀𐍈"
+BIG_EX = "http://ex.org/"
+BIG_CHANNELS = [
+    ("nt_file", "nt", None, "file"), ("nt_gz", "nt", "gz", "file"), ("nt_xz", "nt", "xz", "file"),
+    ("nt_zip", "nt", "zip", "zip1"), ("tsv_xz", "tsv_spo", "xz", "file"), ("tsv_file", "tsv_spo", None, "file"),
+    ("ttli_gz", "turtle_iter", "gz", "file"), ("ttli_xz", "turtle_iter", "xz", "file"),
+]
+
+
+def _big_lines(fmt):
+    """(bytes of the document's header, function: triples -> bytes of their lines) in the rendering of `fmt`"""
+    if fmt == "nt":
+        return 0, lambda ts: pipe.nt_doc(esc_ts(ts)).encode("utf-8")
+    if fmt == "tsv_spo":
+        return 0, lambda ts: tsv_doc(ts).encode("utf-8")
+    head = len(ttl_doc([]).encode("utf-8"))
+    return head, lambda ts: ttl_doc(ts).encode("utf-8")[head:]
+
+
+def gen_big_graph(r, n_bytes=300000, fmt="nt"):
+    """instances of three classes, names made of non-ASCII characters; filler statements (ASCII literal of the needed
+    length) put, in the rendering of `fmt`, the first byte of the first non-ASCII character of an instance's typing
+    statement before every multiple of BLOCK and the rest of the character after it"""
+    head, lines = _big_lines(fmt)
+
+    def word(lo, hi):
+        return "".join(r.choice(NON_ASCII) for _ in range(r.randint(lo, hi)))
+    classes = [("I", BIG_EX + "C" + word(3, 6)) for _ in range(3)]
+    props = [BIG_EX + "p" + word(3, 8) for _ in range(4)]
+    ts, size, k, inst, seen = [], head, 1, [], set()
+
+    def add(t):
+        nonlocal size
+        if t in seen:
+            return
+        seen.add(t)
+        ts.append(t)
+        size += len(lines([t]))
+    i = 0
+    filler_base = len(lines([(("I", BIG_EX + "filler"), BIG_EX + "pad", ("L", "", XSD + "string"))]))
+    while size < n_bytes:
+        s = ("I", BIG_EX + word(3, 9) + "%d" % i)
+        i += 1
+        typing = (s, TAU, r.choice(classes))
+        if k * BLOCK - size < 2500:
+            first = next(j for j, b in enumerate(lines([typing])) if b >= 0x80)
+            n = k * BLOCK - (first + 1) - size - filler_base
+            add((("I", BIG_EX + "filler"), BIG_EX + "pad", ("L", ("%d" % k + "x" * n)[:n], XSD + "string")))
+            k += 1
+        add(typing)
+        for p in props:
+            for _ in range(r.choice([0, 1, 1, 2])):
+                c = r.random()
+                if c < 0.3:
+                    o = ("L", word(2, 12) + " " + word(1, 5), XSD + "string")
+                elif c < 0.45:
+                    o = ("L", word(2, 12), LANGSTRING, r.choice(["es", "zh-Hant", "el"]))
+                elif c < 0.6:
+                    o = ("L", word(1, 6), BIG_EX + "dt" + word(2, 4))
+                elif c < 0.8 and inst:
+                    o = r.choice(inst)
+                else:
+                    o = ("I", BIG_EX + "u" + word(2, 6))
+                add((s, p, o))
+        inst.append(s)
+    return ts
+
+
+def straddled_boundaries(doc):
+    """how many multiples of BLOCK fall inside a multi-byte character of the (bytes) document"""
+    return sum(1 for b in range(BLOCK, len(doc), BLOCK) if doc[b] & 0xC0 == 0x80)
+
+
+def run_big_case(case):
+    """same result record as run_case"""
+    global TIMEOUT
+    cfg = case["cfg"]
+    r = random.Random(case["seed"])
+    d = os.path.join(workdir(), "big_%d" % case["i"])
+    os.makedirs(d, exist_ok=True)
+    out = {"i": case["i"], "runs": 0, "spec_fail": [], "known": {}, "corr_fail": [], "assume_fail": [],
+           "tie_skipped": 0, "compared": 0, "excluded_bnode": 0, "corr_checked": 0, "run2_checked": 0,
+           "monitored": 0, "outcomes": {}, "vm": [], "nontrivial": False, "comments": 0, "big": {}}
+    old_timeout, TIMEOUT = TIMEOUT, 120.0
+    try:
+        graphs = {}
+        for fmt_ in ("nt", "tsv_spo", "turtle_iter"):
+            ts_ = gen_big_graph(random.Random(case["seed"]), case.get("bytes", 300000), fmt_)
+            ref_, _ = real_shaper({"raw_graph": nt_doc(ts_)}, cfg)
+            out["runs"] += 1
+            graphs[fmt_] = (ts_, ref_, evidence(ref_, cfg))
+        ts = graphs["nt"][0]
+        raw = nt_doc(ts)
+        data = raw.encode("utf-8")
+        out["doc"] = raw[:400]
+        out["big"] = {"triples": len(ts), "bytes": len(data), "block_boundaries": (len(data) - 1) // BLOCK,
+                      "boundaries_inside_a_character": {}}
+        for ch in BIG_CHANNELS:
+            ts_, ref, e_ref = graphs[ch[1]]
+            info = build_channel(ch, ts_, r, d)
+            out["big"]["boundaries_inside_a_character"][ch[0]] = straddled_boundaries(info["pieces"][0][1])
+            res, _ = real_shaper(info["kw"], cfg)
+            out["runs"] += 1
+            oc = res[0] if res[0] == "ok" else res[1]
+            out["outcomes"][oc] = out["outcomes"].get(oc, 0) + 1
+            fails = []
+            if (res[0] == "ok") != (ref[0] == "ok"):
+                fails.append("outcome differs: reference %s, channel %s" % (ref[:2] if ref[0] != "ok" else "ok",
+                                                                              res[:3] if res[0] != "ok" else "ok"))
+            elif res[0] == "ok":
+                out["compared"] += 1
+                fails = compare_evidence(e_ref, evidence(res, cfg), set(), cfg)
+            elif res[1] != ref[1]:
+                fails.append("exception class differs: reference %s, channel %s" % (ref[1], res[1]))
+            if fails:
+                out["spec_fail"].append({"channel": ch[0] + " (big non-ASCII document)", "what": fails[0][:600],
+                                         "partition": info["parts"]})
+            for cm_ in ("gz", "xz"):
+                for st_, dat_ in info[cm_]:
+                    out["monitored"] += 1
+                    if (gzip if cm_ == "gz" else lzma).decompress(st_) != dat_:
+                        out["assume_fail"].append({"channel": ch[0], "what": "decompress(stored) != content"})
+        # the four file line readers on the bytes of the N-Triples document: the same lines (the extracted line-reader
+        # model needs minutes on a document of this size: it is corresponded on short byte strings only, see
+        # check_line_readers; this comparison is implementation against implementation)
+        path = os.path.join(d, "lr")
+        got = {k_: guarded(_real_lines, k_, data, path) for k_ in ("text", "gz", "xz", "zip")}
+        base_ = [ln.rstrip(b"\r\n") for ln in got["text"][1]] if got["text"][0] == "ok" else None
+        for k_ in ("gz", "xz", "zip"):
+            out["monitored"] += 1
+            mine = [ln.rstrip(b"\r\n") for ln in got[k_][1]] if got[k_][0] == "ok" else None
+            if mine != base_:
+                j = next((j for j, (a_, b_) in enumerate(zip(mine or [], base_ or [])) if a_ != b_), None)
+                out["spec_fail"].append({
+                    "channel": "line reader %s (big non-ASCII document)" % k_, "partition": [len(ts)],
+                    "what": "the %s line reader does not deliver the lines FileLineReader delivers for the same content: "
+                            "%s / %s; first differing line %r: %r vs %r" % (
+                                k_, got[k_][0], got["text"][0], j,
+                                (mine[j].decode("utf-8", "replace")[:160] if j is not None else None),
+                                (base_[j].decode("utf-8", "replace")[:160] if j is not None else None))})
+    except Exception as e:  # noqa: BLE001
+        import traceback
+        out["internal"] = "big case crashed: %s %s" % (type(e).__name__, traceback.format_exc()[-800:])
+    finally:
+        TIMEOUT = old_timeout
+        shutil.rmtree(d, ignore_errors=True)
+    return out
+
+
+def run_job(case):
+    return run_big_case(case) if case.get("big") else run_case(case)
 
 
 # --------------------------------------------------------------------------
@@ -1171,7 +1379,7 @@ def replay_finding(f):
         if kind == "channel-evidence":
             ts = pipeprops_tuplify(rp["ts"])
             cfg = rp["cfg"]
-            ref, _ = real_shaper({"raw_graph": pipe.nt_doc(ts)}, cfg)
+            ref, _ = real_shaper({"raw_graph": nt_doc(ts)}, cfg)
             ch = [c for c in CHANNELS if c[0] == rp["channel"]][0]
             info = build_channel(ch, ts, random.Random(1), d)
             res, _ = real_shaper(info["kw"], cfg)
@@ -1182,7 +1390,7 @@ def replay_finding(f):
             # the channel's document carries comment lines and a commented-out statement; same graph, same evidence
             ts = pipeprops_tuplify(rp["ts"])
             cfg = rp["cfg"]
-            ref, _ = real_shaper({"raw_graph": pipe.nt_doc(ts)}, cfg)
+            ref, _ = real_shaper({"raw_graph": nt_doc(ts)}, cfg)
             ch = [c for c in CHANNELS if c[0] == rp["channel"]][0]
             _COMMENTS[0] = True
             try:
@@ -1294,6 +1502,7 @@ def run(tier, seed, replay=None):
                        {"corpus_case": c, "reproducer": c["reproducer"]})
 
     # ---- cases
+    big_cases = []
     if replay:
         with open(replay) as fh:
             rp = json.load(fh)
@@ -1301,13 +1510,22 @@ def run(tier, seed, replay=None):
         if "reproducer" in rp and replay_finding(rp):
             run_.violation("C08 fails on the implementation: the recorded reproducer fails again",
                            {"reproducer": rp["reproducer"]})
-        if "case" in rp:
+        if "case" in rp and rp["case"].get("big"):
+            big_cases = [dict(rp["case"])]
+        elif "case" in rp:
             c = rp["case"]
             cases = [{"ts": pipeprops_tuplify(c["ts"]), "cfg": c["cfg"], "stream": c.get("stream", 0), "seed": c["seed"],
                       "i": c["i"], "comments": c.get("comments", False)}]
     else:
         n = 3000 if tier == "thorough" else 150
         cases = [gen_case(rnd.getrandbits(48), i) for i in range(n)]
+        # big non-ASCII documents (regenerated from their seed: the replay record holds the seed, not the triples)
+        big_rnd = random.Random(seed ^ 0xB16)
+        for j in range(6 if tier == "thorough" else 1):
+            cfg = pipe.switch_cfg(big_rnd.randrange(64)) if j else pipe.base_cfg()
+            cfg["thr"] = (0, 1)
+            big_cases.append({"big": True, "seed": big_rnd.getrandbits(48), "cfg": cfg, "i": j,
+                              "bytes": 300000 if j < 2 else big_rnd.choice([140000, 200000, 600000])})
 
     results = []
     if bs.model_ok:
@@ -1340,14 +1558,16 @@ def run(tier, seed, replay=None):
             except Exception as e:  # noqa: BLE001
                 import traceback
                 internal.append("plumbing correspondence crashed: %s %s" % (type(e).__name__, traceback.format_exc()[-800:]))
-        results = core.pool_map(run_case, cases, chunksize=2)
+        # the big documents first (the longest jobs), one per task
+        results = core.pool_map(run_job, big_cases + cases, chunksize=1 if len(cases) < 400 else 2)
+    big_results, results = results[:len(big_cases)], results[len(big_cases):]
 
     spec_fail, corr_fail, assume_fail, known_hits = [], [], [], {}
     tot = {"runs": 0, "compared": 0, "tie_skipped": 0, "excluded_bnode": 0, "corr_checked": 0, "run2_checked": 0,
            "monitored": 0}
     outcomes = {}
     distinct = set()
-    for case, res in zip(cases, results):
+    for case, res in list(zip(big_cases, big_results)) + list(zip(cases, results)):
         if "internal" in res:
             internal.append(res["internal"])
             continue
@@ -1370,10 +1590,17 @@ def run(tier, seed, replay=None):
             distinct.add(res["doc"])
 
     def case_payload(case, extra):
+        if case.get("big"):
+            d = {"case": dict(case), "document": "regenerated from the seed: c08.doc_for(fmt, c08.gen_big_graph("
+                 "random.Random(seed), bytes, fmt)) for fmt in nt / tsv_spo / turtle_iter (the channel's format); "
+                 "%d bytes of N-Triples" % len(nt_doc(gen_big_graph(
+                     random.Random(case["seed"]), case.get("bytes", 300000))).encode("utf-8"))}
+            d.update(extra)
+            return d
         d = {"case": {"ts": [[list(s), p, list(o)] for s, p, o in case["ts"]],
                       "cfg": case["cfg"], "stream": case["stream"], "seed": case["seed"], "i": case["i"],
                       "comments": bool(case.get("comments"))},
-             "document": pipe.nt_doc(case["ts"])}
+             "document": nt_doc(case["ts"])}
         d.update(extra)
         return d
 
@@ -1456,12 +1683,17 @@ def run(tier, seed, replay=None):
         "rule": "graphs: pipe.gen_graph (general 2/3, schema-consistent 1/3; 1-2 namespaces) with well-typed integer/date "
                 "literals, plain / typed / language-tagged literals incl. non-ASCII and multi-word contents; three streams: "
                 "IRI instances only; blank-node instances (every 7th graph; compared only among the stable-label channels); "
-                "a plain literal holding '@' (every 11th; finding C08-F1).  Each graph goes through the %d channels with a "
+                "a plain literal holding '@' (every 11th; finding C08-F1, repaired); literals whose lexical forms hold "
+                "escaped quotes / backslashes -- plain, language-tagged and typed rdf:JSON / rdf:HTML / custom datatypes, one "
+                "of them planted on the instances of a class (every 5th: the text channels write the escapes, the rdflib "
+                "terms and JSON-LD carry the values).  Each graph goes through the %d channels with a "
                 "fresh random partition into 1..4 files / members / archives (empty files allowed for nt and tsv); switch "
                 "assignments round-robin, thresholds on the class-size grid, target classes every 5th case.  "
                 "distinct_nontrivial = (distinct documents with a class of >= 2 instances and a non-typing triple) x "
                 "channels" % n_channels,
         "comparisons_with_reference": tot["compared"],
+        "big_non_ascii_documents": [dict(r_.get("big", {}), seed=c_["seed"], channels=[ch[0] for ch in BIG_CHANNELS])
+                                    for c_, r_ in zip(big_cases, big_results)],
         "graphs_whose_text_documents_carry_comment_lines": sum(1 for r_ in results if r_.get("comments")),
         "rdflib_channel_comparisons_with_a_tie_in_the_graph": tot["tie_skipped"],
         "blank_node_instance_runs_excluded": tot["excluded_bnode"],
@@ -1475,7 +1707,7 @@ def run(tier, seed, replay=None):
         "vm_compute_crosschecked": vm_n,
         "disagreements_model_vs_impl": len(corr_fail) + len(corr_static),
         "assumption_violations": len(assume_fail),
-        "samples": [{"document": pipe.nt_doc(cases[i]["ts"])[:1200], "stream": cases[i]["stream"],
+        "samples": [{"document": nt_doc(cases[i]["ts"])[:1200], "stream": cases[i]["stream"],
                      "config": {k: v for k, v in cases[i]["cfg"].items() if v != pipe.base_cfg().get(k)},
                      "outcomes": results[i].get("outcomes")}
                     for i in sorted(set([0, len(cases) // 2, len(cases) - 1])) if cases and results and "internal" not in results[i]],
